@@ -33,6 +33,10 @@ pub struct Act {
 #[derive(Clone, Debug, Serialize, Deserialize, PartialEq)]
 pub enum AOp {
     Add(Act),
+    /// create an activation now (it is stamped by the clock) but hold it back
+    Create(Act),
+    /// add the n-th held activation (modulo) to the agenda
+    AddHeld(u8),
     /// get_next_activation; `mark`: call mark_rule_fired on what came back
     Next { mark: bool },
     SetFocus(u8),
@@ -76,7 +80,12 @@ fn group_name(g: u8) -> String {
 
 #[derive(Clone, Debug)]
 struct Pending {
+    /// creation sequence number
     seq: u64,
+    /// simulated monotonic instant the activation was stamped with
+    created_ns: u64,
+    /// order in which it was handed to add_activation
+    add_seq: u64,
     act: Act,
     /// added while its activation group had already fired: an implementation may drop it at once
     maybe_absent: bool,
@@ -92,6 +101,8 @@ fn run_a(ops: &[AOp], obs: &mut Obs) -> Result<(), Violation> {
     let mut ag = AdvancedAgenda::new();
     let mut pending: BTreeMap<String, Vec<Pending>> = BTreeMap::new();
     let mut seq = 0u64;
+    let mut add_seq = 0u64;
+    let mut held: Vec<(Activation, Act, u64, u64)> = Vec::new();
     let mut fired_rules: BTreeSet<String> = BTreeSet::new();
     let mut fired_groups: BTreeSet<String> = BTreeSet::new();
     let mut locked: BTreeSet<String> = BTreeSet::new();
@@ -100,8 +111,9 @@ fn run_a(ops: &[AOp], obs: &mut Obs) -> Result<(), Violation> {
     let mut returned = 0;
     let mut stalled_ties = 0;
     for (step, op) in ops.iter().enumerate() {
+        let mut to_add: Option<(Activation, Act, u64, u64)> = None;
         match op {
-            AOp::Add(a) => {
+            AOp::Add(a) | AOp::Create(a) => {
                 if a.clock_step_ns == 0 {
                     obs.count("fault.clock_stalled_at_creation");
                 } else {
@@ -111,6 +123,7 @@ fn run_a(ops: &[AOp], obs: &mut Obs) -> Result<(), Violation> {
                     }
                 }
                 let g = group_name(a.agenda_group);
+                let mono_ns = clock::mono_ns(); // the instant the activation is about to be stamped with
                 let mut act = Activation::new(format!("R{}", a.rule), a.salience)
                     .with_agenda_group(g.clone())
                     .with_no_loop(a.no_loop)
@@ -122,21 +135,24 @@ fn run_a(ops: &[AOp], obs: &mut Obs) -> Result<(), Violation> {
                 if a.activation_group > 0 {
                     act = act.with_activation_group(format!("a{}", a.activation_group));
                 }
-                // creation and addition are one atomic client step
-                ag.add_activation(act);
-                if a.auto_focus && g != focus {
-                    stack.push(focus.clone());
-                    focus = g.clone();
-                    obs.count("probe.auto_focus_switched_group");
-                }
-                let maybe_absent = a.activation_group > 0 && fired_groups.contains(&format!("a{}", a.activation_group));
-                let list = pending.entry(g).or_default();
-                if a.clock_step_ns == 0 && list.iter().any(|p| p.act.salience == a.salience) {
-                    stalled_ties += 1;
-                    obs.count("probe.equal_salience_equal_instant_pair");
-                }
-                list.push(Pending { seq, act: a.clone(), maybe_absent });
+                let my_seq = seq;
                 seq += 1;
+                if matches!(op, AOp::Create(_)) {
+                    held.push((act, a.clone(), my_seq, mono_ns));
+                    obs.count("probe.activation_created_and_held_back");
+                    continue;
+                }
+                to_add = Some((act, a.clone(), my_seq, mono_ns));
+            }
+            AOp::AddHeld(i) => {
+                if held.is_empty() {
+                    continue;
+                }
+                let h = held.remove(*i as usize % held.len());
+                if held.iter().any(|x| x.2 < h.2) || pending.values().flatten().any(|p| p.seq > h.2) {
+                    obs.count("probe.added_in_another_order_than_created");
+                }
+                to_add = Some(h);
             }
             AOp::SetFocus(g) => {
                 let g = group_name(*g);
@@ -245,14 +261,16 @@ fn run_a(ops: &[AOp], obs: &mut Obs) -> Result<(), Violation> {
                                     step,
                                 ));
                             }
-                            if p.act.salience == me.act.salience && p.seq < me.seq {
-                                let tie = true;
-                                let _ = tie;
+                            // earlier-created first among equals: by the instant the activation was stamped
+                            // with; when the instants tie, creation order — unless it was handed to the agenda
+                            // in another order than it was created, which the property does not settle
+                            let earlier = p.created_ns < me.created_ns || (p.created_ns == me.created_ns && p.seq < me.seq && p.add_seq < me.add_seq);
+                            if p.act.salience == me.act.salience && earlier {
                                 let v = viol(
                                     "ord.fifo-among-equals",
                                     site,
-                                    "later-created-before-earlier-among-equal-salience",
-                                    format!("returned #{} ({}, salience {}) before the earlier-created #{} (R{}) of equal salience in group {g}", me.seq, a.rule_name, me.act.salience, p.seq, p.act.rule),
+                                    if p.created_ns < me.created_ns { "later-created-before-earlier-among-equal-salience-distinct-instants" } else { "later-created-before-earlier-among-equal-salience" },
+                                    format!("returned #{} ({}, salience {}, stamped {} ns) before the earlier-created #{} (R{}, stamped {} ns) of equal salience in group {g}", me.seq, a.rule_name, me.act.salience, me.created_ns, p.seq, p.act.rule, p.created_ns),
                                     step,
                                 );
                                 if !obs.is_known(&v) {
@@ -262,14 +280,38 @@ fn run_a(ops: &[AOp], obs: &mut Obs) -> Result<(), Violation> {
                         }
                         // consumed: the returned one and everything the implementation skipped over
                         // (anything that outranks it and was not certainly eligible)
-                        let me_key = (std::cmp::Reverse(me.act.salience), me.seq);
-                        list.retain(|p| {
-                            if p.seq == me.seq {
-                                return false;
+                        // did the implementation's order put p before me? Some(true/false), or None when the
+                        // property leaves it open (equal instants, added in another order than created)
+                        let before_me = |p: &Pending| -> Option<bool> {
+                            if p.act.salience != me.act.salience {
+                                return Some(p.act.salience > me.act.salience);
                             }
-                            let outranks = (std::cmp::Reverse(p.act.salience), p.seq) < me_key;
-                            !(outranks && !certainly(p, &fired_rules, &fired_groups, &locked))
-                        });
+                            if p.created_ns != me.created_ns {
+                                return Some(p.created_ns < me.created_ns);
+                            }
+                            if (p.seq < me.seq) == (p.add_seq < me.add_seq) {
+                                Some(p.seq < me.seq)
+                            } else {
+                                None
+                            }
+                        };
+                        let mut kept: Vec<Pending> = Vec::new();
+                        for p in list.iter() {
+                            if p.seq == me.seq {
+                                continue;
+                            }
+                            let skippable = !certainly(p, &fired_rules, &fired_groups, &locked);
+                            match before_me(p) {
+                                Some(true) if skippable => {} // popped before me and skipped: consumed
+                                None if skippable => {
+                                    let mut q = p.clone();
+                                    q.maybe_absent = true; // may have been popped and skipped
+                                    kept.push(q);
+                                }
+                                _ => kept.push(p.clone()),
+                            }
+                        }
+                        *list = kept;
                         if *mark {
                             ag.mark_rule_fired(&a);
                             fired_rules.insert(a.rule_name.clone());
@@ -304,6 +346,23 @@ fn run_a(ops: &[AOp], obs: &mut Obs) -> Result<(), Violation> {
                     }
                 }
             }
+        }
+        if let Some((act, a, my_seq, created_ns)) = to_add {
+            let g = group_name(a.agenda_group);
+            ag.add_activation(act);
+            if a.auto_focus && g != focus {
+                stack.push(focus.clone());
+                focus = g.clone();
+                obs.count("probe.auto_focus_switched_group");
+            }
+            let maybe_absent = a.activation_group > 0 && fired_groups.contains(&format!("a{}", a.activation_group));
+            let list = pending.entry(g).or_default();
+            if list.iter().any(|p| p.act.salience == a.salience && p.created_ns == created_ns) {
+                stalled_ties += 1;
+                obs.count("probe.equal_salience_equal_instant_pair");
+            }
+            list.push(Pending { seq: my_seq, created_ns, add_seq, act: a, maybe_absent });
+            add_seq += 1;
         }
     }
     obs.nontrivial = returned >= 3;
@@ -529,7 +588,7 @@ impl World for AgendaWorld {
             real: vec!["AdvancedAgenda", "Activation (Ord)", "IncrementalEngine", "TypedReteUlEngine", "ReteUlEngine", "AlphaNode / evaluate_rete_ul_node(_typed)"],
             stub: vec!["SimClock (monotonic, behind Activation::created_at)", "client", "rule action closures (harness, spend step budget)", "hash seed"],
             assumptions: vec![
-                "'earlier created' is the creation sequence number kept by the harness; creation and add_activation are one atomic client step".into(),
+                "'earlier created' is judged by the simulated instant an activation was stamped with; when two instants tie, by creation order — unless the two were handed to add_activation in another order than they were created (one run in three creates activations first and adds them later), which the property does not settle (either)".into(),
                 "lock-on-active and activations added after their activation group fired are not in the property: such activations may be skipped or dropped (three-valued), they never force an ordering violation".into(),
                 "if the focus reported by get_focus() disagrees with the harness's focus stack the run stops being judged (counted in probe.focus_model_mismatch; 0 on the pinned tree)".into(),
                 "a loop that spins without ever invoking a rule action is outside the step budget; the driver's wall-clock watchdog is the backstop".into(),
@@ -545,6 +604,8 @@ impl World for AgendaWorld {
                 "probe.rule_set_with_rule_without_no_loop",
                 "probe.extreme_salience",
                 "probe.iteration_bound_reached",
+                "probe.activation_created_and_held_back",
+                "probe.added_in_another_order_than_created",
             ],
             quick_runs: 600_000,
             thorough_runs: 12_000_000,
@@ -557,12 +618,30 @@ impl World for AgendaWorld {
             let n = 3 + rng.usize(12);
             let clock_mode = rng.usize(4); // 0 advancing, 1 stalled runs, 2 minimum step, 3 frozen
             let groups = 1 + rng.usize(3) as u8;
+            // one run in three creates some activations first and adds them later, in another order
+            let split = rng.chance(1, 3);
             let sal = [*rng.pick(&[-1i32, 0, 5]), 0, *rng.pick(&[10i32, i32::MAX, 1])];
             let mut ops = Vec::new();
             let mut stall_left = 0;
             for _ in 0..n {
-                let w = rng.weighted(&[50, 30, 6, 6, 3]);
+                let w = rng.weighted(&[42, 30, 6, 6, 3, if split { 12 } else { 0 }, if split { 12 } else { 0 }]);
                 ops.push(match w {
+                    5 | 6 => {
+                        if w == 6 {
+                            AOp::AddHeld(rng.below(4) as u8)
+                        } else {
+                            AOp::Create(Act {
+                                rule: rng.below(5) as u8,
+                                salience: *rng.pick(&sal),
+                                agenda_group: rng.below(groups as u64) as u8,
+                                activation_group: *rng.pick(&[0u8, 0, 0, 1, 2]),
+                                no_loop: rng.chance(1, 2),
+                                lock_on_active: false,
+                                auto_focus: false,
+                                clock_step_ns: if clock_mode == 0 { rng.range(1, 1000) as u32 } else { *rng.pick(&[0u32, 0, 1, 30]) },
+                            })
+                        }
+                    }
                     0 => {
                         let step = match clock_mode {
                             0 => rng.range(1, 1000) as u32,
@@ -596,6 +675,11 @@ impl World for AgendaWorld {
                     3 => AOp::ResetFired,
                     _ => AOp::Clear,
                 });
+            }
+            if split {
+                for _ in 0..3 {
+                    ops.push(AOp::AddHeld(rng.below(4) as u8));
+                }
             }
             // drain at the end so that every pending activation is either returned or judged
             for _ in 0..rng.usize(6) {
@@ -635,7 +719,7 @@ impl World for AgendaWorld {
         obs.fp_str(&serde_json::to_string(t).unwrap_or_default());
         match t {
             AgendaTrace::A { ops, .. } => {
-                obs.faulty = ops.iter().any(|o| matches!(o, AOp::Add(a) if a.clock_step_ns <= 1));
+                obs.faulty = ops.iter().any(|o| matches!(o, AOp::Add(a) | AOp::Create(a) if a.clock_step_ns <= 1));
                 run_a(ops, obs)
             }
             AgendaTrace::B { engine, rules, x0, facts, second_call, .. } => {
@@ -653,7 +737,8 @@ impl World for AgendaWorld {
                     out.push(AgendaTrace::A { hash_seed: *hash_seed, ops: v });
                 }
                 for i in 0..ops.len() {
-                    if let AOp::Add(a) = &ops[i] {
+                    if let AOp::Add(a) | AOp::Create(a) = &ops[i] {
+                        let is_create = matches!(&ops[i], AOp::Create(_));
                         let mut alts = Vec::new();
                         let mut push = |f: &dyn Fn(&mut Act)| {
                             let mut b = a.clone();
@@ -671,7 +756,7 @@ impl World for AgendaWorld {
                         push(&|b| b.clock_step_ns = 0);
                         for b in alts {
                             let mut c = ops.clone();
-                            c[i] = AOp::Add(b);
+                            c[i] = if is_create { AOp::Create(b) } else { AOp::Add(b) };
                             out.push(AgendaTrace::A { hash_seed: *hash_seed, ops: c });
                         }
                     }
